@@ -89,7 +89,7 @@ Proof. reflexivity. Qed.
 Lemma doc_root_true ps pre u : doc_root ps pre u true = loaded_out ps.
 Proof. reflexivity. Qed.
 
-Definition open_stages (ps : list plugin) (pre : list N) (u : N) (f : bool) : list (entry * bool) :=
+Definition open_stages (ps : list plugin) (pre : list N) (u : N) (f : bool) : list (entry * option xcls) :=
   (if f then stage_full SL u true (Some []) ps else []) ++
   stage_full SD u true (doc_root ps pre u f) ps.
 
@@ -149,21 +149,42 @@ Lemma doc_stages_unfold ps pre os :
   doc_stages ps pre os = map (fun o : N * bool => open_stages ps pre (fst o) (snd o)) os.
 Proof. unfold doc_stages, open_stages. apply map_ext. intros [u f]. reflexivity. Qed.
 
+(* an exception coming out of the documents' hooks was raised by a loaded / parsed hook *)
+Lemma doc_stages_site ps pre os y :
+  In y (concat (doc_stages ps pre os)) -> e_site (fst y) = SL \/ e_site (fst y) = SD.
+Proof.
+  intro H. apply in_concat in H as (st & Hst & Hy). unfold doc_stages in Hst.
+  apply in_map_iff in Hst as ([u f] & <- & _).
+  apply in_app_iff in Hy as [Hy|Hy].
+  - destruct f; [|destruct Hy]. apply stage_full_site in Hy as [-> _]. auto.
+  - apply stage_full_site in Hy as [-> _]. auto.
+Qed.
+
+(* what the caller of Client() gets for an exception in flight *)
+Definition ctor_fail (xsd : list N) (h : hexc) : cres :=
+  match x_site h with
+  | SI => CHookExc (x_site h) (x_idx h) (x_cls h)
+  | _ => doc_fail xsd h
+  end.
+
 (* Client.__init__ in closed form *)
-Lemma construct_closed_l ps caching pre urls :
-  let '(l, os, r) := construct ps caching pre urls in
+Lemma construct_closed_l ps caching pre xsd urls :
+  let '(l, os, r) := construct ps caching pre xsd urls in
   let c := cut (concat (doc_stages ps pre os) ++ init_stage ps pre os) in
   l = fst c /\
-  r = match snd c with Some (s, i) => CHookExc s i | None => COk end /\
+  r = match snd c with Some h => ctor_fail xsd h | None => COk end /\
   (snd c = None -> map fst os = urls).
 Proof.
   unfold construct.
   pose proof (open_all_spec ps pre caching urls _ (cache_inv_init ps pre)) as H.
   destruct (open_all ps caching (map (fun u : N => (u, [])) pre) urls) as [[[l os] roots] x].
   destruct H as [H1 H2].
-  destruct x as [[s i]|].
+  destruct x as [h|].
   - cbn beta iota zeta. rewrite cut_app, <- H1. cbn [fst snd].
-    split; [reflexivity|]. split; [reflexivity|discriminate].
+    split; [reflexivity|]. split; [|discriminate].
+    assert (snd (cut (concat (doc_stages ps pre os))) = Some h) as Hc by (rewrite <- H1; reflexivity).
+    apply cut_sites in Hc as (y & Hy & Hs & _). apply doc_stages_site in Hy.
+    unfold ctor_fail. rewrite <- Hs. destruct Hy as [-> | ->]; reflexivity.
   - destruct (H2 eq_refl) as [Hu ->].
     rewrite hook_eq. unfold hook_decl. cbn beta iota zeta. rewrite cut_app, <- H1. cbn [fst snd].
     assert (hd (Some []) (map (fun o : N * bool => stage_out SD true (doc_root ps pre (fst o) (snd o)) ps) os)
@@ -172,19 +193,54 @@ Proof.
     unfold init_stage.
     destruct os as [|[u f] t]; cbn [fst snd];
       (split; [reflexivity|]; split; [|intros _; exact Hu]);
-      match goal with |- context [cut ?X] => destruct (cut X) as [li [[s i]|]] end; reflexivity.
+      match goal with |- context [cut (stage_full SI ?u0 ?c0 ?d0 ps)] =>
+        pose proof (cut_stage_site SI u0 c0 d0 ps) as CS;
+        destruct (cut (stage_full SI u0 c0 d0 ps)) as [li [h|]]
+      end; try reflexivity;
+      cbn [fst snd] in *; destruct (CS h eq_refl) as [Hs _]; unfold ctor_fail; rewrite Hs; reflexivity.
 Qed.
 
-Lemma construct_meets_spec_l ps caching pre urls :
-  let '(l, os, r) := construct ps caching pre urls in spec_ctor ps pre os l r = true.
+Lemma ctor_fail_reaches xsd h :
+  ctor_exc_reaches xsd h (ctor_fail xsd h) = true.
 Proof.
-  pose proof (construct_closed_l ps caching pre urls) as H.
-  destruct (construct ps caching pre urls) as [[l os] r].
+  unfold ctor_exc_reaches, ctor_fail, doc_fail.
+  destruct (x_site h); try (rewrite cres_eqb_refl; reflexivity);
+    destruct (is_transport (x_cls h) && mem_N (x_url h) xsd); cbn [andb];
+    rewrite cres_eqb_refl; cbn; try reflexivity; apply orb_true_r.
+Qed.
+
+Lemma construct_meets_spec_l ps caching pre xsd urls :
+  let '(l, os, r) := construct ps caching pre xsd urls in spec_ctor ps pre xsd os l r = true.
+Proof.
+  pose proof (construct_closed_l ps caching pre xsd urls) as H.
+  destruct (construct ps caching pre xsd urls) as [[l os] r].
   cbn zeta in H. destruct H as (Hl & Hr & _).
   unfold spec_ctor, spec_ctor_g, log_eqb_g. cbn [negb orb].
   rewrite cut_app in Hl, Hr. rewrite cut_app.
-  destruct (cut (concat (doc_stages ps pre os))) as [dlog [[s i]|]]; cbn [fst snd] in *.
-  - subst. rewrite log_spec_eqb_refl, cres_eqb_refl. reflexivity.
-  - destruct (cut (init_stage ps pre os)) as [ilog [[s i]|]]; cbn [fst snd] in *; subst;
-      rewrite log_spec_eqb_refl, cres_eqb_refl; reflexivity.
+  destruct (cut (concat (doc_stages ps pre os))) as [dlog [h|]]; cbn [fst snd] in *.
+  - subst. rewrite log_spec_eqb_refl, ctor_fail_reaches. reflexivity.
+  - destruct (cut (init_stage ps pre os)) as [ilog [h|]] eqn:E; cbn [fst snd] in *; subst;
+      rewrite log_spec_eqb_refl; cbn [andb]; [|apply cres_eqb_refl].
+    assert (x_site h = SI) as Hs.
+    { unfold init_stage in E. destruct os as [|[u f] t];
+        match type of E with cut (stage_full SI ?u0 ?c0 ?d0 ps) = _ =>
+          destruct (cut_stage_site SI u0 c0 d0 ps h) as [Hs _]; [rewrite E; reflexivity|exact Hs]
+        end. }
+    unfold ctor_fail. rewrite Hs. rewrite <- Hs. apply cres_eqb_refl.
+Qed.
+
+(* the exception of the first raising document / init hook is what the caller of Client()
+   gets, whatever its class - unless it is a TransportError raised by a hook of a document
+   the schema loader downloads *)
+Lemma document_hook_exception_propagates_l ps caching pre xsd urls h :
+  let '(l, os, r) := construct ps caching pre xsd urls in
+  snd (cut (concat (doc_stages ps pre os) ++ init_stage ps pre os)) = Some h ->
+  is_transport (x_cls h) && mem_N (x_url h) xsd = false ->
+  r = CHookExc (x_site h) (x_idx h) (x_cls h).
+Proof.
+  pose proof (construct_closed_l ps caching pre xsd urls) as H.
+  destruct (construct ps caching pre xsd urls) as [[l os] r].
+  cbn zeta in H. destruct H as (_ & Hr & _).
+  intros C G. rewrite C in Hr. subst r. unfold ctor_fail, doc_fail. rewrite G.
+  destruct (x_site h); reflexivity.
 Qed.
